@@ -3,7 +3,7 @@ From Coq Require Import List String.
 From VQ.Gen Require Import w_vq.
 Import ListNotations.
 Open Scope string_scope.
-Lemma pin_w_vq : w_vq =
+Definition pinned_w_vq : list string :=
   ["VectorQuantize.forward:embed_ind:masked_fill_";
    "VectorQuantize.forward:loss:backward()";
    "VectorQuantize.expire_codes_:self._codebook:expire_codes_";
@@ -15,4 +15,5 @@ Lemma pin_w_vq : w_vq =
    "ema_inplace:old:lerp_";
    "ema_inplace:old:mul_";
    "batched_bincount:target:scatter_add_"].
+Lemma pin_w_vq : w_vq = pinned_w_vq.
 Proof. reflexivity. Qed.
